@@ -33,7 +33,7 @@ IDCHARS = "ABCDEFGHIJKLMNOPQRSTUVWXYZabcxyz0189 _-.\x00\x7f~"
 def plan(tier, seed):
     n = 8 if tier == "quick" else 16
     per = 12000 if tier == "quick" else 150000
-    return [{"i": i, "n_round": per, "n_ref": per // 4, "n_hostile": per, "boundaries": i == 0} for i in range(n)]
+    return [{"i": i, "n_round": per, "n_ref": per // 4, "n_hostile": per, "boundaries": i == 0} for i in range(n)] + ([{"kind": "e10"}] if tier == "thorough" else [])
 
 
 def gen_payload(r):
@@ -448,6 +448,10 @@ def run_hostile(env, r, rec):
 
 
 def run_shard(shard, rec):
+    if shard.get("kind") == "e10":
+        from vlib import e10
+        e10.run_e10("C06", rec)
+        return
     core.assert_repo()
     env = Env()
     env.socketutil.time = type("T", (), {"sleep": staticmethod(lambda s: None)})   # no back-off waits on the fake socket
